@@ -240,13 +240,18 @@ def remap (key : Proj) : Proj → Except String Proj
     | none => .error "JoinCommonOnly: invalid output value"
     | some i => (remap key rest).map (i :: ·)
 
-def joinCommonOnly (r r2 : List Row) (leftKey rightKey leftOutput rightOutput : Proj) : Except String (List Row) :=
-  let (key, value) := if leftOutput.length == 0 then (rightKey, rightOutput) else (leftKey, leftOutput)
-  let keys := ((groupBy r leftKey).map (·.1)).filter fun k => hasKey (groupBy r2 rightKey) k
+/-- the `mapper` of `JoinCommonOnly` applied to the common keys: the identity when key and output projector
+coincide, otherwise the re-mapping of every key into the output order -/
+def commonOnlyOut (key value : Proj) (keys : List Row) : Except String (List Row) :=
   if key = value then .ok (dedup keys)
   else match remap key value with
     | .error e => .error e
     | .ok output => .ok (dedup (keys.map (project output)))
+
+def joinCommonOnly (r r2 : List Row) (leftKey rightKey leftOutput rightOutput : Proj) : Except String (List Row) :=
+  let keys := ((groupBy r leftKey).map (·.1)).filter fun k => hasKey (groupBy r2 rightKey) k
+  if leftOutput.length == 0 then commonOnlyOut rightKey rightOutput keys
+  else commonOnlyOut leftKey leftOutput keys
 
 /-- `base.Width()`: the length of any row -/
 def width : List Row → Except String Nat
@@ -417,11 +422,13 @@ def pvGet (proj : Proj) (v : Row) (i : Nat) : Option V :=
 
 /-- the re-sugaring loop of `Relation.Join`; `proj` is the projector the rows are read through:
 the identity of the output heading after the repair, the left operand's `r.p` before it -/
+def resugarRow (proj : Proj) (attrs : Names) (at_ val : Nat) (row : Row) : Option V :=
+  match pvGet proj row at_, pvGet proj row val with
+  | some a, some b => some (V.mkTup [("@", a), (attrs.getD val "", b)])
+  | _, _ => none
+
 def resugar (proj : Proj) (attrs : Names) (at_ val : Nat) (rows : List Row) : Res :=
-  let ms := rows.map fun row =>
-    match pvGet proj row at_, pvGet proj row val with
-    | some a, some b => some (V.mkTup [("@", a), (attrs.getD val "", b)])
-    | _, _ => none
+  let ms := rows.map (resugarRow proj attrs at_ val)
   if ms.any Option.isNone then .panic "Relation.Join: index out of range" else .ok (ofMembers (ms.filterMap id))
 
 def relationJoinWith (oldProjector : Bool) (r r2 : Relation) (keys leftOutput rightOutput : Names) : Res :=
